@@ -18,6 +18,10 @@ Definition prim_typed (u : universe) (var : xvar) (p : prim) : bool :=
   existsb (ptype_eqb (prim_type p)) (v_types var) && enum_member_ok u p.
 
 (* `typed`: every field holds a value of its declared type (no untyped `object` primitives) *)
+(* a list value has the Python type of the field's factory (list / tuple) *)
+Definition is_fac (t : bool) (f : option factory) : bool :=
+  Bool.eqb t (match f with Some FTuple => true | _ => false end).
+
 Fixpoint typed (g : generics) (u : universe) (fuel : nat) (v : value) {struct fuel} : bool :=
   match fuel with
   | O => false
@@ -52,27 +56,27 @@ Fixpoint typed (g : generics) (u : universe) (fuel : nat) (v : value) {struct fu
                        | KWildcard =>
                            if v_mixed var then
                              match x with
-                             | VList false l => forallb (fun y => match y with VP (PStr (_ :: _)) => true | _ => any_item y end) l
+                             | VList t l => is_fac t (v_factory var) && forallb (fun y => match y with VP (PStr (_ :: _)) => true | _ => any_item y end) l
                              | _ => false
                              end
                            else if v_list_element var then
-                             match x with VList false l => forallb any_item l | _ => false end
+                             match x with VList t l => is_fac t (v_factory var) && forallb any_item l | _ => false end
                            else match x with VNone => true | _ => any_item x end
                        | KElements =>
                            if v_list_element var then
-                             match x with VList false l => forallb (choice_item var) l | _ => false end
+                             match x with VList t l => is_fac t (v_factory var) && forallb (choice_item var) l | _ => false end
                            else match x with VNone => true | _ => choice_item var x end
                        | _ =>
                            if v_tokens var then
                              match x with
-                             | VList false l =>
+                             | VList t l =>
                                  if v_list_element var
-                                 then forallb (fun y => match y with VList false l' => forallb (item var) l' | _ => false end) l
-                                 else forallb (item var) l
+                                 then is_fac t (v_factory var) && forallb (fun y => match y with VList t' l' => is_fac t' (v_tokens_factory var) && forallb (item var) l' | _ => false end) l
+                                 else is_fac t (v_tokens_factory var) && forallb (item var) l
                              | _ => false
                              end
                            else if v_list_element var then
-                             match x with VList false l => forallb (item var) l | _ => false end
+                             match x with VList t l => is_fac t (v_factory var) && forallb (item var) l | _ => false end
                            else match x with VNone => true | _ => item var x end
                        end
                    end) vars
@@ -309,11 +313,40 @@ Definition expected (u : universe) (k : dc_case) : value :=
   | FFilterNone => fill_defaults (dc_gen k) u (S (S (vdepth (dc_value_c k)))) (dc_value_c k)
   end.
 
-Definition roundtrip_ok (uk : universe * dc_case) : bool :=
+(* the two codec pairs separately: DictEncoder -> DictDecoder on the in-memory tree, and
+   JsonSerializer -> JsonParser through JSON text (tuples become arrays) *)
+Definition roundtrip_dict_ok (uk : universe * dc_case) : bool :=
+  let '(u, k) := uk in gres_eqb value_eqb (dc_decoded_c k) (Ok (expected u k)).
+Definition roundtrip_json_ok (uk : universe * dc_case) : bool :=
   let '(u, k) := uk in
-  gres_eqb value_eqb (dc_decoded_c k) (Ok (expected u k))
-  && gres_eqb value_eqb (dc_json_decoded_c k) (Ok (expected u k))
-  && dc_json_same_tree k && dc_dumps_ok k.
+  gres_eqb value_eqb (dc_json_decoded_c k) (Ok (expected u k)) && dc_json_same_tree k && dc_dumps_ok k.
+Definition roundtrip_ok (uk : universe * dc_case) : bool := roundtrip_dict_ok uk && roundtrip_json_ok uk.
+
+(* JSON text has arrays only *)
+Fixpoint jdetuple (j : jvalue) : jvalue :=
+  let fix jl (l : list jvalue) : list jvalue := match l with [] => [] | x :: r => jdetuple x :: jl r end in
+  let fix jd (l : list (str * jvalue)) : list (str * jvalue) :=
+    match l with [] => [] | (k, x) :: r => (k, jdetuple x) :: jd r end in
+  match j with
+  | JList _ l => JList false (jl l)
+  | JDict m => JDict (jd m)
+  | _ => j
+  end.
+
+(* the decoder model on the JSON form of what the implementation encoded, against JsonParser *)
+Definition agree_json_decode (uk : universe * dc_case) : bool :=
+  let '(u, k) := uk in
+  match dc_encoded k with
+  | Ok j =>
+      if dc_json_same_tree k then
+        match model_decode u k (jdetuple j), dc_json_decoded k with
+        | Err EAmbiguous, _ => true
+        | _, Err EUnmodelled => true
+        | r, o => gres_eqb value_eqb r o
+        end
+      else true
+  | Err _ => true
+  end.
 
 (* the defect clauses this case violates: 1 keys 2 null-default 3 best-match 4 compound 5 tuples *)
 Definition clauses_failing (uk : universe * dc_case) : list N :=
@@ -359,7 +392,7 @@ Definition has_wrapper_object (u : universe) (v : value) : bool :=
 
 (* attribution of a failing round trip outside the guard (first match wins, in this order):
    10 best-match tie (set order), 1 key collision, 2 null -> default, 4 compound choice shadowed,
-   5 tuple field, 7 generic keys filtered,
+   5 tuple field (DictDecoder on the in-memory tuple; the JSON text pair must hold), 7 generic keys filtered,
    12 class guessed by bind_best_dataclass (no type marker in JSON), 0 unexplained *)
 Definition failure_class (uk : universe * dc_case) : N :=
   let '(u, k) := uk in
@@ -371,7 +404,7 @@ Definition failure_class (uk : universe * dc_case) : N :=
        | 2 :: _ => 2
        | l =>
            if existsb (N.eqb 4) l then 4
-           else if existsb (N.eqb 5) l then 5
+           else if existsb (N.eqb 5) l && roundtrip_json_ok uk then 5     (* only the in-memory pair fails *)
            else if existsb (N.eqb 7) l then 7
            else if existsb (N.eqb 3) l then 12
            else 0
